@@ -32,7 +32,7 @@ pub fn compare(ctx: &mut Ctx, tree: &HNode, flat: &Flat, game: &bridge::G, prof:
 /// Compare get_info of a live Strategies value with O1 evaluated on `prof`, the profile that
 /// value currently holds.
 pub fn compare_strat(ctx: &mut Ctx, tree: &HNode, flat: &Flat, strat: &bridge::S, prof: &Profile) -> Result<bool, (String, String)> {
-    let scale = flat.max_abs_payoff().max(1e-300);
+    let scale = flat.effective_scale().max(1e-300);
     let tol = 1e-9;
     let info = catch(|| strat.get_info()).map_err(|msg| ("get_info:panic".to_string(), format!("get_info panicked: {}", msg)))?;
     let want = match oracle::try_evaluate(flat, prof) {
@@ -252,6 +252,6 @@ pub fn run(ctx: &mut Ctx) {
     ctx.finish(crate::report::extra(
         "cases = (game, profile) pairs: G1 random perfect-recall trees (<=2000 nodes, depth<=12, 8 payoff and 5 chance-weight families, hidden information, shared chance infosets, single-action/outcome nodes) and G2 structured games (matrix, Kuhn, Leduc-like, centipede, degenerate chains, wide infosets, rare chance) x profiles {random, pure, sparse-with-zeros, near-uniform, tiny-probabilities, skewed}, plus G3: every valid micro tree with a bounded number of internal nodes (exhaustive). Each is injected with from_named and get_info is compared with O1; for a quarter of the pairs a history follows on the same value (get_info, clone, truncate at a threshold taken from the profile, get_info, clone, ...) and after every step get_info must equal O1 on the profile the value holds now (read from the dense vectors, hook H1), clones must agree with their source, and the original must be unchanged. get_info is compared with O1 (memoised best response, cross-checked against exhaustive enumeration of pure strategies where feasible). distinct = hash(tree structure, profile bits); non-trivial = the game has at least one multi-action infoset.",
         &["O1 (harness evaluator) is correct; it is cross-checked against brute-force enumeration on every game small enough (counter best_responses_cross_checked_exhaustively)",
-          "tolerance 1e-9 x max|payoff|; payoffs finite with magnitude in {0} u [1e-6,1e6], chance weights in [1e-9,1e9]"],
+          "tolerance 1e-9 x min(max|payoff|, sum over terminals of chance reach x |payoff|); payoffs finite with magnitude in {0} u [1e-6,1e6], chance weights in [1e-9,1e9]"],
     ));
 }
